@@ -189,6 +189,18 @@ theorem released_with_stop_exception {sys : Sys} (h : sys ∈ waiterSystems) :
     simp only [releasedB, hd, hq, Bool.and_self, Bool.not_true, Bool.false_or] at r
     exact r
 
+/-- Corollary in terms of steps: from every reachable state in which a stop request has completed and no other thread is
+    inside a critical section, the task thread reaches — by its own steps alone — a state in which it has ended with
+    QMI_TaskStopException (and that state is reachable). -/
+theorem released_reaches_stop_exception {sys : Sys} (h : sys ∈ waiterSystems) :
+    ∀ s, Reach sys s → stopperDone sys s = true → envQuiet s = true →
+      ∃ u, TaskSteps sys s u ∧ Reach sys u ∧ ∃ t, taskTh u = some t ∧ t.status = .raised .stop := by
+  intro s hs hd hq
+  obtain ⟨u, hu, hg, t, ht, _⟩ := settles_reaches ((released_with_stop_exception h s hs).2 hd hq)
+  refine ⟨u, hu, hu.reach hs, t, ht, ?_⟩
+  simp only [endedByStop, ht, beq_iff_eq] at hg
+  exact hg
+
 /-- **`sleep()` is interruptible**: in `sysSleep` (and with two stop requests) there is no lost wake-up, a completed stop
     request leads — without any time-out — to QMI_TaskStopException, and a `sleep` entered after the stop does not park. -/
 theorem sleep_interruptible {sys : Sys} (h : sys = sysSleep ∨ sys = sysSleep2) :
@@ -250,6 +262,25 @@ example : ∃ s, Reach sysRecvN s ∧ stopperDone sysRecvN s = true ∧ s.flag =
     (∃ t, taskTh s = some t ∧ t.park = .cond true) :=
   ⟨pathState sysRecvN parkThenStop, pathState_reach (by decide +kernel), by decide +kernel, by decide +kernel,
    by decide +kernel, by decide +kernel⟩
+
+/-- `sleep()`: the task parks in `Event.wait`, then the stop request runs to completion: the task is parked, the flag is
+    set — the hypotheses of `sleep_interruptible` / `released_with_stop_exception` hold in a reachable state -/
+example : ∃ s, Reach sysSleep s ∧ stopperDone sysSleep s = true ∧ s.flag = true ∧ envQuiet s = true ∧
+    (∃ t, taskTh s = some t ∧ t.park = .ev) :=
+  ⟨pathState sysSleep [(0,0),(1,0),(1,0),(1,0),(1,0),(1,0),(1,0)], pathState_reach (by decide +kernel),
+   by decide +kernel, by decide +kernel, by decide +kernel, by decide +kernel⟩
+
+/-- the stop request completes before the task begins to wait: hypotheses of `wait_after_stop_does_not_park` -/
+example : ∃ s, Reach sysSleep s ∧ stopperDone sysSleep s = true ∧
+    (∃ t, taskTh s = some t ∧ t.isParked = false ∧ t.finished = false) :=
+  ⟨pathState sysSleep [(1,0),(1,0),(1,0),(1,0),(1,0),(1,0)], pathState_reach (by decide +kernel),
+   by decide +kernel, by decide +kernel⟩
+
+/-- the loop task sleeps out its period, then the stop request completes: hypotheses of `loop_task_finalises` -/
+example : ∃ s, Reach sysLoop s ∧ stopperDone sysLoop s = true ∧ envQuiet s = true ∧ s.fin = 0 ∧
+    (∃ t, taskTh s = some t ∧ t.park = .ev) :=
+  ⟨pathState sysLoop [(0,0),(0,0),(0,0),(0,0),(1,0),(1,0),(1,0),(1,0),(1,0),(1,0)], pathState_reach (by decide +kernel),
+   by decide +kernel, by decide +kernel, by decide +kernel, by decide +kernel⟩
 
 /-- stopper looks up the slot (empty) *before* the task registers; the task then registers, tests the flag (still clear)
     and parks; the stopper sets the flag and, having seen no condition, notifies nobody -/
